@@ -154,6 +154,8 @@ def procCase (inp impl : String) : CaseOut :=
         ("C07", it.flags.isEmpty, s!"malformed or flagged token {it.flags.headD ""} (a poison pill visible to Receive?)"),
         ("C02", noReopen tr, "the inbox was re-opened after it had been stopped (a second worker can run: mutual exclusion is lost)"),
         ("C04", noReopen tr && lifecycleOK tr, "life-cycle shape violated (Initialized, Started, messages, one final Stopped per incarnation; nothing afterwards)"),
+        ("C05", lifecycleOK tr || (restartNumbers tr).isEmpty,
+           "after a restart the fresh incarnation was not the one that received what followed (life-cycle shape violated across a restart)"),
         ("C13", allWrapped mw tr, "a delivery bypassed (part of) the middleware chain or ran it out of order"),
         ("C05", replayPrefixOK batches tr, s!"user deliveries {repr (userRecvs tr)} are not a prefix of the history (lost, duplicated, reordered or wrong sender)"),
         ("C05", replayCompleteOK batches tr alive, "actor alive at the end but not every message was delivered"),
